@@ -71,7 +71,7 @@ func VerifC04_DecodeMessage() {
 	vsymExpect("bad-body-accepted-at-frame-level")
 	max := 19
 	if vsymTier() == 1 {
-		max = 22
+		max = 20 // 6 body bytes; 22 (8 body bytes) did not finish in 45 minutes
 	}
 	n := vsymChoose(max + 1)
 	data := vsymBytes(n)
@@ -116,7 +116,7 @@ func VerifC04_DecodePayload() {
 	vsymExpect("rejected")
 	max := 15
 	if vsymTier() == 1 {
-		max = 18
+		max = 16
 	}
 	n := vsymChoose(max + 1)
 	p := vsymBytes(n)
